@@ -128,3 +128,13 @@ check("C04",
       "Partial in one respect: the quantifier over all completion timings is discharged on the model; the implementation is sampled. Trusted: Lean kernel; bash "
       "for ksh and the shims; kqueue shim; hook ROBSD_VERIF_NCPU; harness.",
       "DESIGN.md#c04")
+
+check("C11",
+      "Lean 4 proof over the orchestrator trace (no step left in flight, records carry the oracle's exit, report iff failed or end); real canvas runs foreground/background/resumed/concurrent checked against the property",
+      "Proof (on Orch.run, for every schedule ending in a decisive step, every oracle): every started step has completed when the invocation ends "
+      "(no_inflight_left), every completed record carries the step's real exit status, hook calls are the completed records plus end, a report is generated iff the "
+      "invocation failed or reached end. The implementation side is sampled: real canvas runs in foreground and background, resumed after a failure, and with a "
+      "second fresh/resumed invocation started while the first holds the lock; records, skip records, logs and their content, hook calls, lock content during and "
+      "after the run, report and captured mail are checked against the property.",
+      "Partial: completion timings are sampled on the implementation (as C04). Trusted: Lean kernel; bash and shims; kqueue shim; sendmail capture; harness.",
+      "DESIGN.md#c11")
